@@ -1,11 +1,15 @@
 #!/bin/bash
-# usage: tools/seed_batch.sh C12 C13 ...   (expects /tmp/wt_<ID>/BREAK/{1,2}); runs try_seeded in parallel and archives
+# usage: tools/seed_batch.sh [--round2] C12 C13 ...
+#   round 1: /tmp/wt_<ID>/BREAK/{1,2} -> seeded/<ID>-{1,2};  round 2: /tmp/wu_<ID>/BREAK/{1,2} -> seeded/<ID>-{3,4}
+PFX=/tmp/wt_; OFF=0
+if [ "$1" = "--round2" ]; then PFX=/tmp/wu_; OFF=2; shift; fi
 mkdir -p /tmp/seedlogs
 for p in "$@"; do for k in 1 2; do
-  [ -d /tmp/wt_$p/BREAK/$k ] && tools/try_seeded.sh /tmp/wt_$p/BREAK/$k $p > /tmp/seedlogs/$p-$k.log 2>&1 &
+  [ -d $PFX$p/BREAK/$k ] && tools/try_seeded.sh $PFX$p/BREAK/$k $p > /tmp/seedlogs/$p-$((k+OFF)).log 2>&1 &
 done; done; wait
 for p in "$@"; do for k in 1 2; do
-  [ -d /tmp/wt_$p/BREAK/$k ] || continue
-  echo "== $p-$k: $(grep -h 'demo\|tests\|check' /tmp/seedlogs/$p-$k.log | cut -c1-90 | tr '\n' ';')"
-  tools/keep_seeded.sh /tmp/wt_$p/BREAK/$k $p-$k $p /tmp/seedlogs/$p-$k.log | tail -1
+  [ -d $PFX$p/BREAK/$k ] || continue
+  id=$p-$((k+OFF))
+  echo "== $id: $(grep -h 'demo\|tests\|check' /tmp/seedlogs/$id.log | cut -c1-90 | tr '\n' ';')"
+  tools/keep_seeded.sh $PFX$p/BREAK/$k $id $p /tmp/seedlogs/$id.log | tail -1
 done; done
